@@ -78,6 +78,8 @@ def err_over_maj(got, ref, maj):
     """max_d |got_d - ref_d| / (maj_d + tiny)  (floats/complex vs mp numbers)"""
     worst = mp.mpf(0)
     for g, r, m in zip(got, ref, maj):
+        if not (abs(complex(g)) < float('inf')):          # NaN or inf in the result: never "close"
+            return float('inf')
         e = abs(num(g) - r) / (m + mp.mpf(10) ** -280)
         if e > worst:
             worst = e
